@@ -264,6 +264,9 @@ func (runInfo *runInfoStruct) invokeDerefExpr(expr *ast.DerefExpr) {
 		return
 	}
 
+	if runInfo.rv.Kind() == reflect.Interface && !runInfo.rv.IsNil() {
+		runInfo.rv = runInfo.rv.Elem()
+	}
 	if runInfo.rv.Kind() != reflect.Ptr {
 		runInfo.err = newStringError(expr.Expr, "cannot deference non-pointer")
 		runInfo.rv = nilValue
@@ -294,6 +297,9 @@ func (runInfo *runInfoStruct) invokeUnaryExpr(expr *ast.UnaryExpr) {
 	runInfo.invokeExpr()
 	if runInfo.err != nil {
 		return
+	}
+	if runInfo.rv.Kind() == reflect.Interface && !runInfo.rv.IsNil() {
+		runInfo.rv = runInfo.rv.Elem()
 	}
 
 	switch expr.Operator {
@@ -872,6 +878,9 @@ func (runInfo *runInfoStruct) invokeIncludeExpr(expr *ast.IncludeExpr) {
 		return
 	}
 
+	if runInfo.rv.Kind() == reflect.Interface && !runInfo.rv.IsNil() {
+		runInfo.rv = runInfo.rv.Elem()
+	}
 	if runInfo.rv.Kind() != reflect.Slice && runInfo.rv.Kind() != reflect.Array {
 		runInfo.err = newStringError(expr, "second argument must be slice or array; but have "+runInfo.rv.Kind().String())
 		runInfo.rv = nilValue
